@@ -81,6 +81,28 @@ func VerifDupAckLimitHit(t Tube) bool {
 	return v.sender.senderWindow.duplicatedAckCounter > 100
 }
 
+// VerifInitiated reports whether the initiation of a tube has completed (lock-free: the tube lock may be held
+// by a goroutine that is parked in a yield).
+func VerifInitiated(t Tube) bool {
+	switch v := t.(type) {
+	case *Reliable:
+		select {
+		case <-v.initDone:
+			return true
+		default:
+			return false
+		}
+	case *Unreliable:
+		select {
+		case <-v.initiated:
+			return true
+		default:
+			return false
+		}
+	}
+	return false
+}
+
 func VerifNewReceiver(start uint64) *VerifRecv {
 	r := newReceiver(logrus.WithField("verif", "recv"))
 	r.m.Lock()
